@@ -28,9 +28,11 @@ impl<'a> RtcpPacketParser<'a> for Sdes<'a> {
         let mut chunks = vec![];
         if data.len() > Self::MIN_PACKET_LEN {
             let mut offset = Self::MIN_PACKET_LEN;
+            // check_packet() ensures the padding fits after the header
+            let chunks_end = data.len() - parser::parse_padding(data).unwrap_or(0) as usize;
 
-            while offset < data.len() {
-                let (chunk, end) = SdesChunk::parse(&data[offset..])?;
+            while offset < chunks_end {
+                let (chunk, end) = SdesChunk::parse(&data[offset..chunks_end])?;
                 offset += end;
                 chunks.push(chunk);
             }
